@@ -56,7 +56,7 @@ ratio_st = st.one_of(
 )
 
 
-def _eas(det, area, qe, thr):
+def _make_eas(det, area, qe, thr):
     from nuspacesim.config import NssConfig
     from nuspacesim.simulation.eas_optical.eas import EAS
 
@@ -67,6 +67,15 @@ def _eas(det, area, qe, thr):
         }
     )
     return EAS(conf)
+
+
+_eas = _make_eas  # (name used by C09 / C11)
+
+
+def dask_sync():
+    import dask
+
+    return dask.config.set(scheduler="synchronous")
 
 
 class Spy:
@@ -130,6 +139,24 @@ def body_chain(case):
         det = case["lowdet"]
         alt = np.where(inside, np.minimum(alt, det - 1.0), alt)
         labels.add("detector_below_20km")
+    # circumstances: another stage object of ANOTHER instrument (altitude, area, threshold) is constructed - and in half of
+    # the cases used - between the construction of every object of the chain and its call, and stays alive
+    by = case.get("bystander")
+    alive = []
+
+    def _eas(det_, area_, qe_, thr_, _make=_make_eas):
+        obj = _make(det_, area_, qe_, thr_)
+        if by is not None:
+            other = _make(by[0], 2.5, 0.5, 3.0)
+            alive.append(other)
+            if by[1]:
+                with dask_sync(), quiet():
+                    z1 = np.zeros(1)
+                    other(np.array([0.3]), np.array([5.0]), np.array([1.0]), z1, z1.copy())
+        return obj
+
+    if by is not None:
+        labels.add("bystander_object_of_another_instrument")
     deck = case.get("cloud")
     cloudf = None if deck is None else (lambda la, lo: deck)  # the same cloud deck in every run of the case
     if deck is not None:
@@ -257,6 +284,7 @@ SUBCHECKS = [
                 "cloud": st.one_of(st.none(), st.none(), st.floats(0.0, 18.0), st.sampled_from([3.0, 8.0, 12.5])),
                 "preempt": st.one_of(st.just([]), st.lists(st.one_of(st.integers(0, 60), st.integers(0, 600), st.integers(0, 5000)), min_size=1, max_size=2)),
                 "lowdet": st.one_of(st.none(), st.none(), st.none(), st.floats(2.0, 20.0), st.sampled_from([2.0, 4.5, 10.0])),
+                "bystander": st.one_of(st.none(), st.tuples(st.sampled_from([33.0, 400.0, 525.0, 2000.0, 4.0]), st.booleans()).map(list)),
             }
         ),
         body_chain,
